@@ -272,29 +272,8 @@ func (e *enc) instr(b *ssa.BasicBlock, st *State, ins ssa.Instruction) {
 		e.selectInstr(st, x)
 	case *ssa.Send:
 		e.syncPoint(st, "send")
-		sent := e.val(x.X)
-		if e.c != nil {
-			name := e.valText(x.Chan)
-			site := fmt.Sprintf("send:%s#%d", name, e.sendOrdinal(x, name))
-			for _, cc := range e.c.calls[site] {
-				env := e.envFor(st, e.entry)
-				env.bound["$val"] = SVal{t: sent, typ: x.X.Type(), sort: sortOf(x.X.Type())}
-				switch cc.kind {
-				case "assert":
-					key := cc.label
-					if key == "" {
-						key = "assert"
-					}
-					g := e.evalBool(cc.expr, env, "send assertion "+site)
-					e.oblige("callsite", fmt.Sprintf("%s:%s", site, key), g, x.Pos(), cc.text)
-				case "bind":
-					v := e.evalSpec(cc.expr, env)
-					gc := e.ghostCellFor(cc.name, v)
-					st.cells[gc.cell] = v.t
-					st.cells[gc.cell+"_set"] = "true"
-				}
-			}
-		}
+		_ = e.val(x.X)
+		e.sendClauses(st, x.Chan, x.X, x.Pos())
 	case *ssa.Panic:
 		txt := e.srcText(x.Pos(), func(n ast.Node) bool { _, ok := n.(*ast.CallExpr); return ok })
 		if txt == "" {
@@ -820,7 +799,22 @@ func (e *enc) selectInstr(st *State, x *ssa.Select) {
 	}
 	e.assume(fmt.Sprintf("(and (<= %s %s) (< %s %d))", num(int64(lo)), idx, idx, len(x.States)))
 	res := []string{idx, e.fresh("selok", "Bool")}
-	for _, s := range x.States {
+	for k, s := range x.States {
+		if s.Dir == types.SendOnly {
+			e.sendClauses(st, s.Chan, s.Send, s.Pos)
+		}
+		// "recv <chan> flag <name>": ghost boolean that becomes true when this case is taken
+		if s.Dir == types.RecvOnly && e.c != nil {
+			for _, cc := range e.c.calls["recv:"+e.valText(s.Chan)] {
+				if cc.kind == "flag" {
+					gc := e.ghostCellFor(cc.name, SVal{sort: "Bool"})
+					e.declare(gc.cell+"_0", "Bool")
+					e.assertOnce("(not " + gc.cell + "_0)")
+					old := e.get(st, gc.cell, "Bool")
+					st.cells[gc.cell] = fmt.Sprintf("(or %s (= %s %d))", old, idx, k)
+				}
+			}
+		}
 		if s.Dir == types.RecvOnly {
 			et := s.Chan.Type().Underlying().(*types.Chan).Elem()
 			v := e.fresh("selrecv", sortOf(et))
